@@ -108,13 +108,54 @@ build(); print(walk()); churn(8); print(walk()); churn(40); print(walk()); build
     return out
 
 
+def stale_entry_programs():
+    """One polymorphic access site that has cached a short-lived shape BEFORE (or between) the shapes of long-lived objects:
+    when a collection frees the short-lived shape, whatever the site does with the dead entry (drop it, compact the list,
+    reuse the place) must not change what it answers for the live shapes, for reads and for stores.  Outside MiniJS
+    (computed keys); every schedule must print the closed form."""
+    out = []
+    live = [("s2", "{p: 'p2', x: 'x2'}"), ("s3", "{x: 'x3', q: 'q3'}"), ("s4", "{a: 1, b: 2, c: 3, x: 'x4'}")]
+    for nlive in (2, 3):
+        for pos in range(nlive + 1):
+            for kind in ("get", "set"):
+                L = live[:nlive]
+                decl = " ".join("var %s = %s;" % (n, lit) for n, lit in L)
+                order = [n for n, _ in L]
+                order.insert(pos, "DEAD")
+                if kind == "get":
+                    body = " ".join("out.push(warm(r));" if n == "DEAD" else "out.push(rd(%s));" % n for n in order)
+                    after = " ".join("out.push(rd(%s));" % n for n, _ in L)
+                    exp_round = lambda r: ["xd%dxd%d" % (r, r) if n == "DEAD" else "x" + n[1] for n in order] + ["x" + n[1] for n, _ in L]
+                else:
+                    body = " ".join("out.push(warm(r));" if n == "DEAD" else "wr(%s, '%s' + r); out.push(JSON.stringify(%s));" % (n, n, n) for n in order)
+                    after = " ".join("wr(%s, 'w' + r); out.push(JSON.stringify(%s));" % (n, n) for n, _ in L)
+                    import json as _j
+
+                    def obj(n, v):
+                        d = {"s2": [("p", "p2"), ("x", v)], "s3": [("x", v), ("q", "q3")], "s4": [("a", 1), ("b", 2), ("c", 3), ("x", v)]}[n]
+                        return _j.dumps(dict(d), separators=(",", ":"))
+                    exp_round = lambda r: ["xd%dxd%d" % (r, r) if n == "DEAD" else obj(n, n + str(r)) for n in order] + [obj(n, "w" + str(r)) for n, _ in L]
+                src = """function rd(o){ return o.x } function wr(o, v){ o.x = v }
+%s var out = [];
+function warm(r){ var dead = {}; dead['k' + r] = r; dead.x = 'xd' + r; var a = %s; return a + %s }
+for (var r = 0; r < 5; r++) { %s var junk = [{}, {}, [r]]; %s }
+print(out.join(' '));
+""" % (decl, "rd(dead)" if kind == "get" else "(wr(dead, 'xd' + r), dead.x)", "rd(dead)" if kind == "get" else "dead.x", body, after)
+                exp = []
+                for r in range(5):
+                    exp += exp_round(r)
+                out.append(("stale/%s/live%d/dead-at-%d" % (kind, nlive, pos), src, ["s:" + " ".join(exp)]))
+    return out
+
+
 def spec(tier):
     cfgs = GC_CONFIGS if tier == "thorough" else [c for c in GC_CONFIGS if c[0] in ("default", "none", "gc:1", "gc:3", "gc:50")]
     s = cfgdiff.Spec("C10", cfgs, "none", "c10", "no forced collection", {"quick": 250, "thorough": 1200})
     s.quick_grid, s.quick_corpus = 300, 150
     s.extra_items = churn_programs()
     wc = weak_chain_programs()
-    s.raw_items = wc if tier == "thorough" else [w for k, w in enumerate(wc) if k % 3 == 0 or "/d3/210/" in w[0] or "/d4/3210/" in w[0]]
+    s.raw_items = (wc if tier == "thorough" else [w for k, w in enumerate(wc) if k % 3 == 0 or "/d3/210/" in w[0] or "/d4/3210/" in w[0]]) \
+        + stale_entry_programs()
     return s
 
 
